@@ -381,16 +381,26 @@ def check_params(rep):
                 p._roughness, p._diameter, p._length, p._minor_loss = V.pos('C', 20, 200), V.pos('d', 0.01, 3), V.pos('L', 0.1, 1e5), V.real('K', 0, 100)
                 v = wn.get_link('VT')
                 v.diameter, v._setting, v.minor_loss = V.pos('dv', 0.01, 3), V.real('Kt', 0, 1000), V.real('Kv', 0, 100)
-                v._initial_setting = v._setting
+                v._initial_setting = V.real('Kt0', 0, 1000)      # the defining value; what a control changes is the run-time setting
                 m, upd = hydraulics.create_hydraulic_model(wn)
-                return V, p, v, m.hw_resistance['PA'].value, m.minor_loss['PA'].value, m.tcv_resistance['VT'].value, m.minor_loss['VT'].value
+                out = (V, p, v, m.hw_resistance['PA'].value, m.minor_loss['PA'].value, m.tcv_resistance['VT'].value, m.minor_loss['VT'].value)
+                # a control changes the TCV setting in mid-run: the updater re-runs the definitions registered for (valve, 'setting')
+                v._setting = V.real('Kt2', 0, 1000)
+                upd.update(m, wn, v, 'setting')
+                return out + (m.tcv_resistance['VT'].value, v._setting)
             for path in symx.explore(harness, max_paths=8):
                 if path.exc is not None:
                     raise path.exc
-                V, p, v, k, mn, rt, mv = path.value
+                V, p, v, k, mn, rt, mv, rt2, kt2 = path.value
                 cons = path.constraints()
                 wit = lambda mdl, V=V: V.witness(mdl)
+                v._setting = V.real('Kt', 0, 1000)
                 _param_claims(rep, cons, wit, p, v, k, mn, rt, mv)
+                with symx.scratch():
+                    g = rv(9.81) * rv(math.pi) * rv(math.pi)
+                    dv = real(v.diameter)
+                    rep.prove('param/tcv_resistance/after-setting-change', cons, zabs(real(rt2) * g * dv * dv * dv * dv - 8 * real(kt2)) <= rv(1e-12) * zabs(8 * real(kt2)), wit, 'params',
+                              sample='after a control changed the setting: R == 8 (current setting) / (9.81 pi^2 d^4)')
             rep.reach('param', cons)
     finally:
         for u in undo:
@@ -419,7 +429,7 @@ def replay_params(i):
     wn = modelkit.T3()
     p, v = wn.get_link('PA'), wn.get_link('VT')
     p.roughness, p.diameter, p.length, p.minor_loss = i['C'], i['d'], i['L'], i['K']
-    v.diameter, v.initial_setting, v.minor_loss = i['dv'], i['Kt'], i['Kv']
+    v.diameter, v.initial_setting, v.minor_loss = i['dv'], i.get('Kt0', i['Kt']), i['Kv']
     v._setting = i['Kt']
     m, upd = hydraulics.create_hydraulic_model(wn)
     g = 9.81 * math.pi ** 2
@@ -432,6 +442,11 @@ def replay_params(i):
         return 'tcv_resistance = %r, documented %r' % (m.tcv_resistance['VT'].value, 8 * i['Kt'] / (g * i['dv'] ** 4))
     if not close(m.minor_loss['VT'].value, 8 * i['Kv'] / (g * i['dv'] ** 4), 1e-9, 1e-15):
         return 'valve minor_loss = %r, documented %r' % (m.minor_loss['VT'].value, 8 * i['Kv'] / (g * i['dv'] ** 4))
+    if 'Kt2' in i:
+        v._setting = i['Kt2']
+        upd.update(m, wn, v, 'setting')
+        if not close(m.tcv_resistance['VT'].value, 8 * i['Kt2'] / (g * i['dv'] ** 4), 1e-9, 1e-15):
+            return 'after the setting was changed to %r the tcv_resistance is %r, documented %r' % (i['Kt2'], m.tcv_resistance['VT'].value, 8 * i['Kt2'] / (g * i['dv'] ** 4))
     return None
 
 
